@@ -137,6 +137,7 @@ Definition T_seq : PM.t ostate := Eval vm_compute in closure false pol_quiescent
 Definition T_safe : PM.t ostate := Eval vm_compute in closure false pol_safe.
 Definition T_any : PM.t ostate := Eval vm_compute in closure false pol_any.
 Definition T_seq_loose : PM.t ostate := Eval vm_compute in closure true pol_quiescent.
+Definition T_any_loose : PM.t ostate := Eval vm_compute in closure true pol_any.
 
 (* at quiescence: M1's invariants *)
 Definition quiescent_good (s : ostate) : bool := negb (quiescent s) || qgood s.
@@ -215,6 +216,24 @@ Proof.
   unfold seq_loose_ok in H. rewrite Q in H. cbn [negb orb] in H.
   apply orb_true_iff in H. destruct H as [H|H]; [left; exact H|right].
   apply andb_true_iff in H. exact H.
+Qed.
+
+(* (5) unrestricted overlap with waits that may give up at any time (a run
+   thread slower than one second, e.g. held in a long handler): the symptom
+   list grows by a stale _runflag, late writes of the old run thread after
+   cleanup(), and AttributeError from the dropped worker reference *)
+Definition any_loose_ok (s : ostate) : bool :=
+  negb (quiescent s) || qgood s || symptom_loose s.
+
+Theorem overlap_loose_quiescent_classified s :
+  oreach true pol_any s -> quiescent s = true -> qgood s = true \/ symptom_loose s = true.
+Proof.
+  intros R Q.
+  assert (H : any_loose_ok s = true).
+  { apply (closed_invariant (succs true pol_any) oinit T_any_loose any_loose_ok); try exact R;
+      vm_compute; reflexivity. }
+  unfold any_loose_ok in H. rewrite Q in H. cbn [negb orb] in H.
+  apply orb_true_iff in H. exact H.
 Qed.
 
 (* ------------------------------------------------------------------ *)
@@ -304,30 +323,34 @@ Example races_outside_safe_windows :
   safe_pair WExec OStop = false /\ safe_pair WSetStopped OStart = false /\ safe_pair WClear OEndRepl = false.
 Proof. auto. Qed.
 
-(* non-vacuity of (1)-(3): quiescent states with an ended replication are reachable *)
+(* non-vacuity of (1)-(3): quiescent states with an ended replication are
+   reachable under the sequential discipline (start() at quiescence, then the
+   run to its natural end) *)
+Lemma run_sched_reach_pol loose pol ls : forall s s',
+  oreach loose pol s -> run_sched loose s ls = Some s' ->
+  forallb (fun x => match x with LI _ => false | _ => true end) ls = true ->
+  oreach loose pol s'.
+Proof.
+  induction ls as [|x r IH]; intros s s' R H Hl; cbn [run_sched] in H.
+  - injection H as <-. exact R.
+  - destruct (lab_step loose s x) as [s1|] eqn:E; [|discriminate].
+    cbn [forallb] in Hl. apply andb_true_iff in Hl. destruct Hl as [Hx Hl].
+    apply (IH s1 s'); auto.
+    apply (reach_step _ _ s s1 R). unfold succs.
+    destruct x as [i|i|c]; cbn [lab_step] in E; [| |discriminate].
+    + apply in_or_app. left. eapply nth_error_In. exact E.
+    + apply in_or_app. right. apply in_or_app. left. eapply nth_error_In. exact E.
+Qed.
+
 Example ended_reachable_sequentially :
   exists s, oreach false pol_quiescent s /\ quiescent s = true /\ o_ps s = PEnded /\ qgood s = true.
 Proof.
   exists (mkO REnded PEnded false false true true true false false WDead MIdle
               (Some (mkMon true 0 true false false false true (Some 0%Z)))).
   split; [|auto].
-  assert (G : forall l s s', oreach false pol_quiescent s ->
-              (forall t l', run_sched false t (l' :: nil) <> None -> True) ->
-              run_sched false s l = Some s' ->
-              forallb (fun x => match x with LI _ => false | _ => true end) l = true ->
-              oreach false pol_quiescent s').
-  { induction l as [|x r IH]; intros s s' R _ H Hl; cbn [run_sched] in H.
-    - injection H as <-. exact R.
-    - destruct (lab_step false s x) as [s1|] eqn:E; [|discriminate].
-      cbn [forallb] in Hl. apply andb_true_iff in Hl. destruct Hl as [Hx Hl].
-      apply (IH s1 s'); auto.
-      apply (reach_step _ _ s s1 R). unfold succs.
-      destruct x as [i|i|c]; cbn [lab_step] in E; [| |discriminate].
-      + apply in_or_app. left. eapply nth_error_In. exact E.
-      + apply in_or_app. right. apply in_or_app. left. eapply nth_error_In. exact E. }
-  (* start() at quiescence, then the run to the natural end *)
   assert (R1 : oreach false pol_quiescent (up_m MSt0 oinit)).
   { apply (reach_step _ _ oinit); [apply reach_start|]. vm_compute. auto. }
-  apply (G (rep_lab 10 (LM 0) ++ rep_lab 6 (LW 0) ++ rep_lab 2 (LM 0) ++ [LW 0; LW 1] ++ rep_lab 11 (LW 0))
+  apply (run_sched_reach_pol false pol_quiescent
+           (rep_lab 10 (LM 0) ++ rep_lab 6 (LW 0) ++ rep_lab 2 (LM 0) ++ [LW 0; LW 1] ++ rep_lab 11 (LW 0))
            (up_m MSt0 oinit)); auto.
 Qed.
